@@ -14,15 +14,18 @@ type zzCfg struct {
 	noGrowSync bool
 	initMmap   int
 	maxSize    int
+	noStats    bool
 }
 
 func zzConfig() zzCfg {
 	return zzCfg{pageSize: zz.Param("pagesize", 1024), hashmap: zz.Param("hashmap", 0) == 1, noFLSync: zz.Param("noflsync", 0) == 1,
-		noGrowSync: zz.Param("nogrowsync", 0) == 1, initMmap: zz.Param("initmmap", 0), maxSize: zz.Param("maxsize", 0)}
+		noGrowSync: zz.Param("nogrowsync", 0) == 1, initMmap: zz.Param("initmmap", 0), maxSize: zz.Param("maxsize", 0),
+		noStats: zz.Param("nostats", 0) == 1}
 }
 
 func (c zzCfg) options() *Options {
-	o := &Options{PageSize: c.pageSize, NoFreelistSync: c.noFLSync, NoGrowSync: c.noGrowSync, InitialMmapSize: c.initMmap, MaxSize: c.maxSize}
+	o := &Options{PageSize: c.pageSize, NoFreelistSync: c.noFLSync, NoGrowSync: c.noGrowSync, InitialMmapSize: c.initMmap, MaxSize: c.maxSize,
+		NoStatistics: c.noStats}
 	o.FreelistType = FreelistArrayType
 	if c.hashmap {
 		o.FreelistType = FreelistMapType
@@ -131,6 +134,18 @@ func zzSetup(db *DB, kind int) {
 	zz.Assert(err == nil, "setup/update")
 	if err != nil {
 		zz.Assume(false)
+	}
+	if kind == 6 {
+		// a free list that no longer fits one page: a value of 140 pages is written and deleted again,
+		// so every later commit frees and rewrites a multi-page freelist page
+		err = db.Update(func(tx *Tx) error {
+			return tx.Bucket([]byte("b")).Put([]byte("huge"), zzVal(db.pageSize*140, 'H'))
+		})
+		zz.Assert(err == nil, "setup/huge-put")
+		err = db.Update(func(tx *Tx) error { return tx.Bucket([]byte("b")).Delete([]byte("huge")) })
+		zz.Assert(err == nil, "setup/huge-delete")
+		err = db.Update(func(tx *Tx) error { return tx.Bucket([]byte("b")).Put([]byte("k03"), []byte("x")) })
+		zz.Assert(err == nil, "setup/after-huge")
 	}
 }
 
@@ -279,8 +294,10 @@ func zzCheckAllT(db *DB, path string, c zzCfg, id string, trigger bool, key stri
 		return nil
 	})
 	zz.Assert(err == nil, id+"/view")
-	st := db.Stats()
-	zz.Assert(st.FreePageN+st.PendingPageN == db.freelist.Count(), id+"/stats-count")
+	if !c.noStats {
+		st := db.Stats()
+		zz.Assert(st.FreePageN+st.PendingPageN == db.freelist.Count(), id+"/stats-count")
+	}
 }
 
 // HarnessAcct (C07, C12 DB-level, C19a): symbolic one/two-slot transactions over structural setups.
